@@ -232,7 +232,7 @@ def make_source(kind, data):
     raise ValueError(kind)
 
 
-def impl_dec(mode, tname, cc, enc, data, source="counting", unmarshal=False):
+def impl_dec(mode, tname, cc, enc, data, source="counting", unmarshal=False, root=None):
     """Run Binary.marshal on the real code; return canonical lines (events, then one R line).
     source: "counting" (pull counts are real) or another iterable kind (pull counts printed as 0).
     unmarshal: additionally re-encode the emitted events with Binary.unmarshal (lines U and S before R)."""
@@ -250,6 +250,9 @@ def impl_dec(mode, tname, cc, enc, data, source="counting", unmarshal=False):
         kwargs["command_code"] = TPM_CC(cc)
     if enc:
         kwargs["parameter_encryption"] = True
+    if root is not None:
+        from tpmstream.common.path import Path as _Path
+        kwargs["root_path"] = _Path.from_string(root)
     lines = []
     gen = Binary.marshal(**kwargs)
     pending = None  # a trailing InputStream* warning in warn mode becomes the outcome
